@@ -79,6 +79,7 @@ class Sidecars:
         self.assumed: Dict[str, ContractAst] = {}
         self.loops: Dict[Tuple[str, int], LoopAst] = {}
         self.attr_sorts: Dict[str, str] = {}
+        self.written_only_in = []     # (attribute, function key prefix): the attribute is assigned nowhere else in the package
         self.write_once = set()       # attributes assigned only by the constructor of their own object (obligation write-once@<attr>)
         self.specs: Dict[str, ast.FunctionDef] = {}
         self.specs_rec: Dict[str, ast.FunctionDef] = {}
@@ -141,6 +142,9 @@ class Sidecars:
                         self.attr_sorts.update(ast.literal_eval(kw.value))
                     else:
                         self.attr_sorts[kw.arg] = ast.literal_eval(kw.value)
+            elif isinstance(node, ast.Expr) and isinstance(node.value, ast.Call) and isinstance(node.value.func, ast.Name) \
+                    and node.value.func.id == "written_only_in":
+                self.written_only_in.append((ast.literal_eval(node.value.args[0]), ast.literal_eval(node.value.args[1])))
             elif isinstance(node, ast.Expr) and isinstance(node.value, ast.Call) and isinstance(node.value.func, ast.Name) \
                     and node.value.func.id == "write_once":
                 self.write_once |= {ast.literal_eval(a) for a in node.value.args}
